@@ -1,6 +1,7 @@
 #!/bin/sh
-# usage: tools/reeval_all.sh <parallel> [pattern]   re-runs every stored seeded change (seeded/Cxx-k) against the current checks
-# in scratch worktrees of /repo's HEAD; prints one line per change. /repo and /verif/evidence are not touched.
+# usage: tools/reeval_all.sh <parallel> [pattern]   re-runs every stored seeded change (seeded/Cxx-k) against the current
+# checks - the same checks its meta.json lists as catching it - in scratch worktrees of /repo's HEAD; one line per change.
+# /repo and /verif/evidence are not touched.
 PAR=${1:-4}; PAT=${2:-C}
 mkdir -p /tmp/reeval
-ls -d /verif/seeded/${PAT}* | xargs -n1 basename | xargs -P "$PAR" -I{} sh -c 'p=$(echo {} | cut -d- -f1); k=$(echo {} | cut -d- -f2); cd /verif; python3 tools/eval_seed.py $p $k --as {} --noconfirm > /tmp/reeval/{}.log 2>&1; echo "{}: $(grep -o "rc=[0-9]" /tmp/reeval/{}.log | tr "\n" " ")"'
+ls -d /verif/seeded/${PAT}* | xargs -n1 basename | xargs -P "$PAR" -I{} sh -c 'p=$(echo {} | cut -d- -f1); k=$(echo {} | cut -d- -f2); cd /verif; cs=$(python3 -c "import json;m=json.load(open(\"seeded/{}/meta.json\"));print(\",\".join(sorted({c.split(\"/\")[0] for c,r in m.get(\"checks\",{}).items() if r.get(\"rc\")==1}) or [\"$p\"]))"); python3 tools/eval_seed.py $p $k --as {} --noconfirm --checks $cs > /tmp/reeval/{}.log 2>&1; echo "{}: [$cs] $(grep -o "rc=[0-9]" /tmp/reeval/{}.log | tr "\n" " ")"'
